@@ -89,6 +89,9 @@ def _configs(tier, salts):
                     cfg["x0"] = [0.0, 0.0]
                     cfg["tag_start"] = "at_min_nonzero_residual"
                     out.append((cfg, {"depth": 0 if mode == "l1" else 1, "letters": LETTERS}))
+        # the model-increase geometries under soft and hard restarts (the abandoned trial point must survive the restart)
+        if salt == 0 or (tier == "thorough" and salt == 1):
+            out += cfgs.tr_increase_cfgs(salt, restarts=("soft", "hard_new"), letters=("best", "x0.3", "x0"))
         # the broad option bank, deterministic modes only
         if salt == 0 or (tier == "thorough" and salt == 1):
             for name, cfg in cfgs.broad_cfgs(salt=salt, exclude=("noisy",), budgets=(7, 25, 60)):
